@@ -720,11 +720,7 @@ class TimeExceeded (icmp_base):
     self._init(kw)
 
   def _fields (self):
-    f = ['mtu']
-    r = {}
-    for ff in f:
-      r[ff] = getattr(self, ff)
-    return r
+    return {}
 
   @classmethod
   def unpack_new (cls, raw, offset = 0, buf_len = None, prev = None):
@@ -749,6 +745,9 @@ class TimeExceeded (icmp_base):
 
   def hdr (self, payload):
     return struct.pack('!I', 0) # Unused
+
+  def pack (self):
+    return packet_base.pack(self)
 
 
 class PacketTooBig (icmp_base):
@@ -779,7 +778,7 @@ class PacketTooBig (icmp_base):
     if buf_len is None: buf_len = len(raw)
 
     try:
-      o.mtu = struct.unpack_from("!I", raw, offset)
+      o.mtu = struct.unpack_from("!I", raw, offset)[0]
       offset += 4
 
       o.next = raw[offset:buf_len]
@@ -795,6 +794,9 @@ class PacketTooBig (icmp_base):
 
   def hdr (self, payload):
     return struct.pack('!I', self.mtu)
+
+  def pack (self):
+    return packet_base.pack(self)
 
 
 class unpack_new_adapter (object):
